@@ -224,7 +224,19 @@ impl KnownWord {
     #[must_use]
     pub fn exp(self, rhs: Self) -> Self {
         // The operation takes place in native endianness, which in our case is LE
-        KnownWord::from_le(self.value.wrapping_pow(rhs.value.as_u32()))
+        // Square-and-multiply over the full 256-bit exponent
+        let mut result = U256::from(1u8);
+        let mut base = self.value;
+        let mut exponent = rhs.value;
+        let zero = U256::from(0u8);
+        while exponent != zero {
+            if exponent & U256::from(1u8) != zero {
+                result = result.wrapping_mul(base);
+            }
+            base = base.wrapping_mul(base);
+            exponent >>= 1u32;
+        }
+        KnownWord::from_le(result)
     }
 
     /// Computes less-than of two known words.
